@@ -165,7 +165,8 @@ enum Op {
     Set(u16),             // set_option(number, full list)
     JunkAdd(u16, usize),  // add junk value of len
     SetCf(usize),         // set_content_format(value of m.options[i]) - replaces whatever is there
-    SetObs(usize),        // set_observe_value(value of m.options[i])
+    SetObs(usize),
+    ReusedWithFreshHeader,        // set_observe_value(value of m.options[i])
     JunkPadded(usize),    // add the value of m.options[i] with a leading zero byte (same number, non-canonical)
     Clear(u16),
     ClearAll,
@@ -301,6 +302,11 @@ pub fn build_packet(m: &Msg, r: &mut Rng) -> (Packet, String) {
     if r.chance(1, 3) {
         hdr.insert(0, Op::JunkToken);
     }
+    if r.chance(1, 4) {
+        // a packet object that is re-used: it held a token of the same length as the one to come, then
+        // its header was re-initialised (or taken over from another message) before everything is set
+        hdr.insert(0, Op::ReusedWithFreshHeader);
+    }
     let mut merged: Vec<Op> = Vec::with_capacity(ops.len() + hdr.len());
     let mut oi = ops.into_iter().peekable();
     let mut hi = hdr.into_iter().peekable();
@@ -345,6 +351,18 @@ pub fn build_packet(m: &Msg, r: &mut Rng) -> (Packet, String) {
             Op::Token => {
                 p.set_token(m.token.clone());
                 desc.push_str("tok,");
+            }
+            Op::ReusedWithFreshHeader => {
+                p.set_token(vec![0xDD; m.token.len()]);
+                if r.bool() {
+                    p.header = coap_lite::Header::new();
+                } else {
+                    let mut other = Packet::new();
+                    other.set_token(vec![1; (m.token.len() + 3) % 9]);
+                    other.header.message_id = 0x7777;
+                    p.header = other.header.clone();
+                }
+                desc.push_str("token-of-same-length-then-header-replaced,");
             }
             Op::JunkToken => {
                 p.set_token(vec![0xEE; 8 - m.token.len().min(8)]);
